@@ -1,7 +1,7 @@
 (** * Judging a case: does the model agree with what the implementation returned, and does the
     implementation's output satisfy the property checkers. Evaluated by [vm_compute] on [NumF]. *)
 From Coq Require Import ZArith Bool List String Floats.
-From RDM Require Import Base.Num Base.NumF Base.Util Model.Data Model.Rank Model.Pipeline Check.Mk Check.C04 Check.C01 Check.C03 Check.C05 Check.C11 Check.C12 Check.C13 Check.C06 Check.C08 Check.C13b.
+From RDM Require Import Base.Num Base.NumF Base.Util Model.Data Model.Rank Model.Pipeline Check.Mk Check.Close Check.C04 Check.C01 Check.C03 Check.C05 Check.C11 Check.C12 Check.C13 Check.C06 Check.C08 Check.C13b.
 Import ListNotations.
 
 Definition obs_echo := (string * float * bool)%type.
@@ -13,7 +13,7 @@ Definition echo_same (m : @echo NumF) (o : obs_echo) : bool :=
   let '(n, p, f) := o in String.eqb (ec_name m) n && f_same (ec_prob m) p && Bool.eqb (ec_fired m) f.
 
 (* verdict codes: 0 agree; 1 model rejects, code accepts; 2 model accepts, code rejects;
-   3 both accept, results differ; 4 both accept, bias echoes differ;
+   3 both accept, results differ; 4 both accept, bias echoes differ; 20 agree up to float drift (1e-9 relative);
    10+k: model stopped for a harness reason (out of random numbers / oracle / fuel) *)
 Definition agree (m : res (@response NumF)) (o : observed) : nat :=
   match m, o with
@@ -24,8 +24,10 @@ Definition agree (m : res (@response NumF)) (o : observed) : nat :=
   | Err _, ObsOk _ _ => 1
   | Ok _, ObsErr => 2
   | Ok r, ObsOk er eb =>
-      if negb (list_eqb entry_same (resp_result r) er) then 3
-      else if negb (list_eqb echo_same (resp_biases r) eb) then 4 else 0
+      if negb (list_eqb echo_same (resp_biases r) eb) then 4
+      else if list_eqb entry_same (resp_result r) er then 0
+      else if list_eqb entry_close (resp_result r) er then 20   (* agree up to last-bit drift of the floats *)
+      else 3
   end.
 
 Record case := { k_env : @env NumF; k_req : @request NumF; k_obs : observed }.
@@ -133,7 +135,10 @@ Definition judge_stage (c : scase) : list nat :=
             | Err _, None => 0
             | Err _, Some _ => 1
             | Ok _, None => 2
-            | Ok (st, rep), Some st' => if negb (state_same st st') then 3 else if negb (report_same rep (s_report c)) then 4 else 0
+            | Ok (st, rep), Some st' =>
+                if state_same st st' && report_same rep (s_report c) then 0
+                else if negb (state_close st st') then 3
+                else if negb (report_close rep (s_report c)) then 4 else 20
             end in
   match s_after c with
   | None => [ag; 0; 0; 0; 0; 0; 0; 0; 0]
